@@ -30,6 +30,22 @@ logging.disable(logging.CRITICAL)
 SCONV = 60.0 / (1 << 16) / (1 << 16)
 
 
+def val_of(o):
+    """the state of a test object: MinPO.value, or the integer held by a Blob's data"""
+    if hasattr(o, 'open') and not hasattr(o, 'value'):
+        with o.open('r') as f:
+            return int(f.read())
+    return o.value
+
+
+def set_val(o, v):
+    if hasattr(o, 'open') and not hasattr(o, 'value'):
+        with o.open('w') as f:
+            f.write(b'%d' % v)
+    else:
+        o.value = v
+
+
 # ---------------------------------------------------------------- independent tid arithmetic
 def raw_of_datetime(dt):
     """the 64-bit tid of a (naive, UTC) datetime — written from the TimeStamp format description,
@@ -88,6 +104,8 @@ def gen_ops(rng, n, kind):
             ops.append(['vw', mode, rng.randrange(1 << 20, 1 << 30)])
         elif r < 0.905 and kind == 'file':
             ops.append(['delobj', rng.randrange(1 << 30)])      # storage-level deleteObject
+        elif r < 0.92 and kind == 'file':
+            ops.append(['restore', rng.randrange(1 << 30)])     # storage-level restore() of an unreachable object
         elif r < 0.93:
             ops.append(['newset', rng.randrange(1 << 30)])
         else:
@@ -112,6 +130,11 @@ def gen_case(rng, thorough):
         k = case['pack']
         case['ops'][k:k] = [['set', 1, rng.randrange(1 << 30)]] if k >= 2 else []
         case['ops'] += [['set', 2, rng.randrange(1 << 30)], ['set', 2, rng.randrange(1 << 30)]]
+    case['blobs'] = kind == 'file' and rng.random() < 0.4      # new objects are Blobs now and then
+    case['hist_pool'] = rng.choice([3, 3, 1])
+    case['hist_timeout'] = rng.choice([300, 300, 4])          # in ticks of the scripted clock
+    case['ctor'] = rng.choice(['direct', 'direct', 'config'])
+    case['clock'] = 1.0 if case.get('pack') is not None else rng.choice([1.0, 1.0, 1.0, 0.0, -1.0])
     if rng.random() < (0.5 if thorough else 0.25):
         case['sched'] = dict(seed=rng.randrange(1 << 30), stick=rng.choice([0.0, 0.5, 0.8]))
     if rng.random() < 0.4:
@@ -279,7 +302,7 @@ def real_reads(conn, oids, minimize=False):
         for name in names:
             try:
                 o = root[name]
-                v = o.value
+                v = val_of(o)
                 out.append('name %s oid=%d serial=%d val=%s' % (name, u64(o._p_oid), u64(o._p_serial), v))
             except POSKeyError:
                 out.append('name %s KeyError' % name)
@@ -292,7 +315,7 @@ def real_reads(conn, oids, minimize=False):
             continue
         try:
             o = conn.get(p64(oid))
-            v = o.value
+            v = val_of(o)
             out.append('oid %d serial=%d val=%s' % (oid, u64(o._p_serial), v))
         except POSKeyError:
             out.append('oid %d KeyError' % oid)
@@ -348,20 +371,39 @@ class World:
         os.makedirs(d)
         self.dir = d
         if case['kind'] == 'file':
-            self.st = FileStorage(os.path.join(d, 'Data.fs'), pack_gc=False)
+            self.fspath = os.path.join(d, 'Data.fs')
+            self.blobdir = os.path.join(d, 'blobs') if case.get('blobs') else None
+            if case.get('ctor') == 'config':
+                import ZODB.config
+                self.st = ZODB.config.storageFromString(
+                    '<filestorage>\n path %s\n pack-gc false\n%s</filestorage>\n'
+                    % (self.fspath, ' blob-dir %s\n' % self.blobdir if self.blobdir else ''))
+            else:
+                self.st = FileStorage(self.fspath, pack_gc=False, blob_dir=self.blobdir)
             self.st._tfile = _TfileProxy(self.st._tfile)
         else:
             self.st = MappingStorage()
         self.no_undo = set()     # indices in rec.txns that are never undone (deleteObject and its `del`)
+        self.is_blob = {}        # oid -> True for Blob objects
         self.rec = Record()
         self.last_touch = {}     # oid -> index in rec.txns of the last txn that wrote it
         self.packed_upto = 0     # bounds must be > this tid
-        self.db = ZODB.DB(self.st, historical_pool_size=3)
+        self.db = ZODB.DB(self.st, historical_pool_size=case.get('hist_pool', 3),
+                          historical_timeout=case.get('hist_timeout', 300),
+                          historical_cache_size=case.get('hist_cache', 1000))
         self.note_commit({0: {}})
         self.tms = [transaction.TransactionManager() for _ in range(case['live'])]
         self.conns = [self.db.open(tm) for tm in self.tms]
         self.nname = 0
         self.turn = 0
+        self.export = None       # an export file made through a live connection (for importFile)
+
+    def new_object(self, v):
+        from ZODB.blob import Blob
+        from ZODB.tests.MinPO import MinPO
+        if self.case.get('blobs') and v % 3 == 0:
+            return Blob(b'%d' % v)
+        return MinPO(v)
 
     def note_commit(self, writes):
         tid = u64(self.st.lastTransaction())
@@ -394,21 +436,22 @@ class World:
                 pick = [names[(op[2] + j * 7) % len(names)] for j in range(op[1])]
                 writes = {}
                 for j, name in enumerate(sorted(set(pick))):
-                    root[name].value = op[2] + j
+                    set_val(root[name], op[2] + j)
                     writes[mapping[name]] = op[2] + j
                 tm.commit()
                 self.note_commit(writes)
             elif kind in ('new', 'newset'):
                 name = 'n%d' % self.nname
                 self.nname += 1
-                o = MinPO(op[1])
+                o = self.new_object(op[1])
                 c.add(o)
                 root[name] = o
                 writes = {u64(o._p_oid): op[1]}
                 mapping[name] = u64(o._p_oid)
+                self.is_blob[u64(o._p_oid)] = not hasattr(o, 'value')
                 if kind == 'newset' and len(mapping) > 1:
                     other = sorted(n for n in mapping if n != name)[op[1] % (len(mapping) - 1)]
-                    root[other].value = op[1] + 1
+                    set_val(root[other], op[1] + 1)
                     writes[mapping[other]] = op[1] + 1
                 writes[0] = mapping
                 tm.commit()
@@ -471,6 +514,31 @@ class World:
                     raise
                 self.note_commit({oid: None})
                 self.no_undo.add(len(self.rec.txns) - 1)
+            elif kind == 'restore':
+                # copy-style write of a new revision (IStorageRestoreable.restore, no invalidations) for an
+                # object that is no longer reachable
+                unreach = sorted(o for o, (ser, v) in cur.items()
+                                 if o != 0 and v is not None and isinstance(v, int) and o not in mapping.values()
+                                 and not self.is_blob.get(o))
+                if not unreach or self.case['kind'] != 'file':
+                    tm.abort()
+                    return False
+                tm.abort()
+                oid = unreach[op[1] % len(unreach)]
+                from ZODB.Connection import TransactionMetaData
+                from ZODB.tests.MinPO import MinPO
+                from ZODB.tests.StorageTestBase import zodb_pickle
+                t = TransactionMetaData()
+                self.st.tpc_begin(t)
+                try:
+                    self.st.restore(p64(oid), self.st._tid, zodb_pickle(MinPO(op[1])), '', None, t)
+                    self.st.tpc_vote(t)
+                    self.st.tpc_finish(t)
+                except Exception:
+                    self.st.tpc_abort(t)
+                    raise
+                self.note_commit({oid: op[1]})
+                self.no_undo.add(len(self.rec.txns) - 1)
             elif kind == 'vw':
                 return self.vote_window(op, tm, c, root, mapping)
             return True
@@ -507,7 +575,7 @@ class World:
         def write(delta):
             w = {}
             for j, name in enumerate(pick):
-                root[name].value = (v ^ delta) + j
+                set_val(root[name], (v ^ delta) + j)
                 w[mapping[name]] = (v ^ delta) + j
             return w
 
@@ -548,6 +616,36 @@ class World:
             return u64(base64.decodebytes(b + b'\n'))
         except Exception:   # noqa: BLE001
             return None
+
+    def make_export(self):
+        """an export file of one reachable object, made through a live connection"""
+        import io
+        cur = self.rec.current()
+        names = sorted(cur[0][1]) if 0 in cur and cur[0][1] else []
+        plain = [n for n in names if not self.is_blob.get(cur[0][1][n])]
+        if plain:
+            tm, c = self.tms[0], self.conns[0]
+            tm.begin()
+            f = io.BytesIO()
+            c.exportFile(p64(cur[0][1][plain[0]]), f)
+            self.export = f.getvalue()
+
+    def reopen(self):
+        """close the DB object and open a new one on the same file (saved index, packed or not)"""
+        import transaction
+        import ZODB
+        from ZODB.FileStorage import FileStorage
+        for tm, c in zip(self.tms, self.conns):
+            tm.abort()
+            c.close()
+        self.db.close()
+        self.st = FileStorage(self.fspath, pack_gc=False, blob_dir=self.blobdir)
+        self.st._tfile = _TfileProxy(self.st._tfile)
+        self.db = ZODB.DB(self.st, historical_pool_size=self.case.get('hist_pool', 3),
+                          historical_timeout=self.case.get('hist_timeout', 300))
+        self.tms = [transaction.TransactionManager() for _ in self.tms]
+        self.conns = [self.db.open(tm) for tm in self.tms]
+        self.obs.count('db-reopened')
 
     def pack_point(self):
         """fix the pack time just after the newest transaction; bounds and undos at or before it are
@@ -604,6 +702,15 @@ def probe_forms(rec, rng, packed_upto, full):
         if (nxt is None or rmid < nxt) and rmid > t and (full or rng.random() < 0.5):
             forms.append(('at', mid, rmid, 'dt-between'))
             forms.append(('before', mid, rmid, 'dt-between'))
+    # the same instants as timezone-aware datetimes (UTC and a zone 5.5 h east)
+    aware = []
+    for kw, val, num, form in forms:
+        if form.startswith('dt-') and len(aware) < 8 and (full or rng.random() < 0.5):
+            utc = val.replace(tzinfo=datetime.timezone.utc)
+            aware.append((kw, utc, num, form + '-utc'))
+            aware.append((kw, utc.astimezone(datetime.timezone(datetime.timedelta(hours=5, minutes=30))), num,
+                          form + '-tz'))
+    forms += aware
     last = tids[-1]
     far = datetime_of_raw(last) + datetime.timedelta(days=1)
     forms.append(('at', far, raw_of_datetime(far), 'dt-future'))
@@ -674,7 +781,7 @@ def open_probe(world, obs, kw, val, num, form, nhist, keep):
         root = h.root()
         names = sorted(root.keys())
         if names:
-            root[names[0]].value = -1
+            set_val(root[names[-1]], 1)          # (a Blob if there is one: storeBlob must be refused too)
         else:
             root['zz'] = 1
         try:
@@ -706,6 +813,37 @@ def open_probe(world, obs, kw, val, num, form, nhist, keep):
         obs.count('new_oid-refused')
         obs.model('hnewoid %d' % hk, 'err:ReadOnly')
         tm.abort()
+    if 0 in st and obs.nprobe % 4 == 0:
+        # a savepoint after a change, and importFile (which makes a savepoint), are commits too
+        try:
+            root = h.root()
+            names = sorted(root.keys())
+            if names:
+                set_val(root[names[0]], 2)
+            else:
+                root['zz'] = 2
+            try:
+                tm.savepoint()
+                obs.bad.append(('C15:savepoint-allowed', 'savepoint() after a change through open(%s) succeeded'
+                                % ctx))
+            except (ReadOnlyHistoryError, ReadOnlyError):
+                obs.count('savepoint-refused')
+            tm.abort()
+            if world.export is not None:
+                import io
+                try:
+                    h.importFile(io.BytesIO(world.export))
+                    tm.commit()
+                    obs.bad.append(('C15:import-allowed', 'importFile + commit through open(%s) succeeded' % ctx))
+                    raise StopCase()
+                except (ReadOnlyHistoryError, ReadOnlyError):
+                    obs.count('import-refused')
+                tm.abort()
+        except StopCase:
+            raise
+        except Exception as e:      # noqa: BLE001
+            tm.abort()
+            obs.bad.append(('C15:error', 'open(%s): savepoint/import route: %r' % (ctx, e)))
     # after the abort the state is the same again
     real2 = real_reads(h, oids)
     check_reads(obs, 'after aborted write', 'C15:read-differs', real2, expected_reads(rec, bound, oids), ctx)
@@ -719,8 +857,9 @@ def run_case(case, tmp, full=True):
     import random
     obs = Obs()
     rng = random.Random(case['probe_seed'])
-    with clock.scripted():
+    with clock.scripted() as clk:
         world = World(case, tmp, obs)
+        clk.step = case.get('clock', 1.0)           # 0: stalled clock (tids differ by one), < 0: regressing
         try:
             rec = world.rec
             when = case.get('pack_when', 'now')
@@ -734,6 +873,7 @@ def run_case(case, tmp, full=True):
                 world.pack_run()
             nhist = [0]
             kept = []
+            world.make_export()
             forms = probe_forms(rec, rng, world.packed_upto, full)
             keep_idx = set(rng.sample(range(len(forms)), min(3, len(forms))))
             for i, (kw, val, num, form) in enumerate(forms):
@@ -805,6 +945,21 @@ def run_case(case, tmp, full=True):
                 if h2 is h:
                     obs.count('historical-pool-reuse')
                 h2.close()
+            # a new DB object on the same file (after the packs, undos, deletions): the same past
+            if case['kind'] == 'file':
+                world.reopen()
+                lt = u64(world.st.lastTransaction())
+                if lt < rec.ltid():
+                    # candidate finding (unchanged tree, reported): the pack dropped the newest transaction
+                    # (it held only a deleteObject record) and the reopened storage's lastTransaction()
+                    # went backwards; the newest points are then refused as "in the future"
+                    obs.count('candidate:pack-reopen-lasttransaction-backwards')
+                    obs.findings.append(('C15:pack-reopen-lasttransaction-backwards',
+                                         'after pack and reopen lastTransaction() is %d, it was %d' % (lt, rec.ltid())))
+                for kw, val, num, form in forms[1:: max(1, len(forms) // 5)]:
+                    bound = num + 1 if kw == 'at' else num
+                    if bound <= lt + 1 and lt == rec.ltid():
+                        open_probe(world, obs, kw, val, num, form + '/reopened', nhist, False)
         except InfraError:
             raise
         except StopCase:
